@@ -30,7 +30,9 @@ pub mod body {
 }
 
 // bitflags-generated set over {FCGI_MAX_CONNS=1, FCGI_MAX_REQS=2, FCGI_MPXS_CONNS=4}  (R9)
+#[derive(Clone, Copy)]
 pub struct ProtocolVariables { pub bits: u8 }
+#[derive(Clone, Copy)]
 pub struct RequestFlags { pub bits: u8 }
 
 // GetValuesResult for the variable set `bits` under `max_conns`: uninterpreted here; its content is
@@ -38,3 +40,36 @@ pub struct RequestFlags { pub bits: u8 }
 pub uninterp spec fn values_reply(bits: u8, max_conns: usize) -> Seq<u8>;
 // bit of a queryable variable name, 0 for every other name (ProtocolVariables::parse_name; kani: parse_name_*)
 pub uninterp spec fn var_bit(name: Seq<u8>) -> u8;
+pub open spec fn vars_union(bits: u8, pairs: Seq<(Seq<u8>, Seq<u8>)>) -> u8
+    decreases pairs.len()
+{
+    if pairs.len() == 0 { bits } else { vars_union(bits | var_bit(pairs[0].0), pairs.skip(1)) }
+}
+impl ProtocolVariables {
+    #[verifier::external_body]
+    pub fn empty() -> (r: Self)
+        ensures r.bits == 0,
+    { unimplemented!() }
+
+    // Appends one GetValuesResult record for this set; returns the number of bytes appended.
+    // kani (C17, bounded): write_response_* harnesses decide the *content* values_reply stands for.
+    #[verifier::external_body]
+    pub fn write_response(self, out: &mut Vec<u8>, config: &Config) -> (r: usize)
+        ensures
+            final(out)@ == old(out)@ + values_reply(self.bits, config.max_conns.get()),
+            r == values_reply(self.bits, config.max_conns.get()).len(),
+            final(out)@.len() <= usize::MAX,   // Vec length is a usize
+    { unimplemented!() }
+}
+// R9: `let mut nvit = NVIter::new(payload); vars.extend((&mut nvit).filter_map(parse_nv_var));
+//      let remaining = nvit.into_inner().len();`
+// Iterator adapters are outside Verus.  Contract: every complete pair of `payload` is visited in order
+// (NVIter::next is verified against pair_step in the nv unit), the known names are or-ed into the set,
+// and `remaining` is the length of the undecoded tail.
+#[verifier::external_body]
+pub fn scan_vars(vars: &mut ProtocolVariables, payload: &[u8]) -> (remaining: usize)
+    ensures
+        remaining == decode_rest(payload@).len(),
+        remaining <= payload@.len(),   // consequence of the line above (lemma_rest_suffix, nv lemma unit)
+        final(vars).bits == vars_union(old(vars).bits, decode_pairs(payload@)),
+{ unimplemented!() }
